@@ -15,7 +15,7 @@ pub const EXTREME: &[&str] = &[
     "1e5",
 ];
 
-const SMALL: &[&str] = &["0", "1", "2", "3", "5", "10", "-1", "-2", "1.5", "7", "100"];
+const SMALL: &[&str] = &["0", "1", "2", "3", "5", "10", "-1", "-2", "1.5", "7", "100", "-1.5", "-1.25", "2.5", "-2.5", "0.1"];
 const STRS: &[&str] = &[
     "\"\"", "\"a\"", "\"ab\"", "\"abc\"", "\"a,b\"", "\"x y\"", "\"é\"", "\"日本\"", "\"😀\"", "\"a\\nb\"", "\"\\u00e9\"",
     "\"1\"", "\"[1,2]\"", "\"{\\\"a\\\":1}\"", "\"k\"", "\"%Y\"", "\"YWJj\"", "\"a*\"", "\"(a)(b)?\"", "\"\\\\d+\"", "\"g\"",
@@ -71,6 +71,14 @@ const CENSUS: &[&str] = &[
     "getpath", "splits", "ascii", "tojson", "toarray", "have_literal_numbers", "have_decnum", "trimstr", "ltrimstr", "input_filename",
     "get_search_list", "error", "add", "limit", "first", "getpath", "env", "halt_error", "abs", "pick", "debug", "scan", "splits", "@base32", "@base32d",
     "@base64", "@base64d", "@csv", "@tsv", "@html", "@json", "@sh", "@text", "@uri", "@urid", "@yaml", "@props", "@dsv",
+];
+
+/// Strings with an internal structure that some builtin parses (offsets, dates, formats,
+/// numbers, encodings). `structured()` corrupts one of them with a multi-byte character.
+const STRUCTURED: &[&str] = &[
+    "+01:00", "-0530", "+05", "-12:30", "+0000", "2015-03-05T23:51:47Z", "10:20:30", "2024-02-30", "2024-13-15", "%Y-%m-%d", "%FT%TZ", "%F", "%D %T",
+    "1e10", "0x1F", "12.5e-3", "-0.0", "1_000", "true", "a=b&c=d", "a,b,\\\"c\\\"", "YWJj", "YQ==", "%41%42", "%C3%A9", "{\\\"a\\\":1}", "[1,2]", "key: value",
+    "UTC", "America/New_York", "Z", "1425599507", "Mon, 05 Mar 2015", "05/03/15", "23:51", "PT1H", "1.2.3", "a.b[0].c", "$.a", "/a/b",
 ];
 
 const FIELDS: &[&str] = &["a", "b", "c", "k", "é", "a_b", "x1"];
@@ -268,7 +276,7 @@ impl<'a> ProgGen<'a> {
             return self.atom();
         }
         let d = depth + 1;
-        match self.rng.below(48) {
+        match self.rng.below(50) {
             0..=4 => self.atom(),
             5..=7 => format!("{} | {}", self.expr(d), self.expr(d)),
             8 => format!("{}, {}", self.expr(d), self.expr(d)),
@@ -489,7 +497,35 @@ impl<'a> ProgGen<'a> {
                     "\"%a %b\"", "\"%A, %B %d, %Y\"", "\"%c\"", "\"%j %U %w\"", "\"%Z %z\"", "\"%e %H:%M:%S\"", "\"%s\"", "\"%%\"", "\"%Y-%m-%dT%H:%M:%SZ\"",
                     "\"%h %p %I\"", "\"%G %V %u\"", "\"%\"", "\"%é\"", "\"%y %C %D %F %T\"",
                 ]);
-                match self.rng.below(8) {
+                let st = self.structured();
+                let st2 = self.structured();
+                let two = |g: &mut Self, pool: &[&str]| -> String { (*g.rng.pick(pool)).to_string() };
+                let date = format!(
+                    "\"{}-{}-{}{}{}:{}:{}{}\"",
+                    two(self, &["2024", "0000", "9999", "1969", "99999", "-001"]),
+                    two(self, &["00", "01", "02", "12", "13", "99", "1", "é1"]),
+                    two(self, &["00", "01", "29", "30", "31", "32", "99", "1"]),
+                    two(self, &["T", " ", "t", ""]),
+                    two(self, &["00", "12", "23", "24", "99"]),
+                    two(self, &["00", "30", "59", "60", "99"]),
+                    two(self, &["00", "59", "60", "61", "99"]),
+                    two(self, &["Z", "", "+01:00", "-0530", " UTC", "z"]),
+                );
+                let dfmt = two(self, &["\"%F\"", "\"%FT%TZ\"", "\"%F %T\"", "\"%Y-%m-%dT%H:%M:%SZ\"", "\"%D\"", "\"%F%z\"", "\"%Y-%m-%d %H:%M:%S %Z\"", "\"%G-%V-%u\"", "\"%Y-%j\"", "\"%y%m%d\"", "\"%s\"", "\"%c\"", "\"%x %X\"", "\"%R\"", "\"%e %b %Y\""]);
+                match self.rng.below(16) {
+                    8 => {
+                        let a = self.fixed_width_soup();
+                        let b = self.fixed_width_soup();
+                        let c = self.fixed_width_soup();
+                        format!("{} | (tz({a})?, tz({b})?, tz({c})?, tz({st})?)", self.num())
+                    }
+                    9 => format!("{arr} | tz({st})"),
+                    10 => format!("{date} | strptime({dfmt}), (strptime({dfmt}) | mktime, todate)?, fromdate?, fromdateiso8601?, strptime({st2})?"),
+                    11 => format!("{st} | fromdate, fromdateiso8601, todate, (tonumber? // 0 | todate)"),
+                    12 => format!("{} | strftime({st}), strflocaltime({st})", self.num()),
+                    13 => format!("{st} | tonumber, fromjson, @base64d, @urid, ascii_downcase, (explode | length)"),
+                    14 => format!("{st} | test({st2}), ltrimstr({st2}), split({st2}), (. / {st2})"),
+                    15 => format!("{} | localtime | mktime, (now | tz({st}))", self.num()),
                     0 | 1 => format!("{arr} | strftime({fmt})"),
                     2 => format!("{arr} | mktime"),
                     3 => format!("{arr} | todate"),
@@ -539,6 +575,7 @@ impl<'a> ProgGen<'a> {
             40 | 41 => self.strings_family(),
             42 | 43 => self.paths_family(),
             44..=47 => self.census(),
+            48 | 49 => self.numeric_family(),
             _ => format!("[{}] | {}", self.expr(d), (*self.rng.pick(ZERO_ARG))),
         }
     }
@@ -612,8 +649,56 @@ impl<'a> ProgGen<'a> {
 
 
 
+    /// A structured string, possibly with one character replaced by / preceded by a
+    /// multi-byte one (byte-position arithmetic on "fixed-width" formats).
+    fn structured(&mut self) -> String {
+        let base = *self.rng.pick(STRUCTURED);
+        if self.rng.chance(1, 2) {
+            return format!("\"{base}\"");
+        }
+        // work on the raw text (escapes kept intact: only corrupt plain ASCII alphanumerics/punctuation)
+        let chars: Vec<char> = base.chars().collect();
+        let idxs: Vec<usize> = (0..chars.len()).filter(|&i| chars[i] != '\\' && chars[i] != '"' && (i == 0 || chars[i - 1] != '\\')).collect();
+        if idxs.is_empty() {
+            return format!("\"{base}\"");
+        }
+        let at = idxs[self.rng.usize_below(idxs.len())];
+        let mb = *self.rng.pick(&['é', '日', '😀', '١', 'ａ', '\u{a0}']);
+        let mut out = String::from("\"");
+        for (i, c) in chars.iter().enumerate() {
+            if i == at {
+                out.push(mb);
+                if self.rng.chance(1, 2) {
+                    out.push(*c);
+                }
+            } else {
+                out.push(*c);
+            }
+        }
+        out.push('"');
+        out
+    }
+
+    /// A short sign-prefixed soup over the characters fixed-width parsers look for (digits,
+    /// separators) plus multi-byte ones: candidates for numeric UTC offsets, clock fields, ...
+    fn fixed_width_soup(&mut self) -> String {
+        let mut out = String::from("\"");
+        if self.rng.chance(3, 4) {
+            out.push(*self.rng.pick(&['+', '-']));
+        }
+        let n = self.rng.urange(2, 6);
+        for _ in 0..n {
+            out.push(*self.rng.pick(&['0', '1', '2', '5', '9', ':', ':', 'é', '日', '-', 'T', 'Z', '.', ' ']));
+        }
+        out.push('"');
+        out
+    }
+
     /// One typed value to feed a builtin (as input or as an argument).
     fn typed_value(&mut self) -> String {
+        if self.rng.chance(1, 8) {
+            return self.structured();
+        }
         match self.rng.below(12) {
             0 | 1 => self.num(),
             2 => (*self.rng.pick(MB_STRS)).to_string(),
@@ -677,6 +762,45 @@ impl<'a> ProgGen<'a> {
         }
     }
 
+
+    /// Arithmetic and math functions at the integer / float boundaries.
+    fn numeric_family(&mut self) -> String {
+        const XS: &[&str] = &[
+            "-9223372036854775808", "9223372036854775807", "-9223372036854775807", "-1e19", "1e19", "-infinite", "infinite", "nan", "0", "-0", "1", "-1",
+            "4611686018427387904", "-4611686018427387905", "-1e300", "1e300", "9007199254740993", "0.5", "-0.5", "1e-300", "3037000500", "2147483648", "1e1000",
+        ];
+        const YS: &[&str] = &[
+            "-1", "-1.5", "-1.25", "1.5", "0", "0.5", "-0.5", "2", "-2", "1e-300", "infinite", "-infinite", "-9223372036854775808", "9223372036854775807", "nan", "0.0", "3",
+            "-0.0", "1e19", "-1e19", "7", "64", "63", "-63", "1024", "1e300",
+        ];
+        let x = *self.rng.pick(XS);
+        let y = *self.rng.pick(YS);
+        let x2 = *self.rng.pick(XS);
+        match self.rng.below(22) {
+            0..=4 => {
+                let op = *self.rng.pick(&["%", "%", "/", "*", "+", "-"]);
+                format!("({x} {op} {y}), ([{x}, {y}] | (.[0] {op} .[1]))")
+            }
+            5 => format!("{x} | floor, ceil, round, trunc, fabs, abs, sqrt, -(.)"),
+            6 => format!("{x} | tostring, tojson, @text, @json, (tojson | fromjson)"),
+            7 => format!("{x} | pow(.; {y}), pow({y}; .), log, log2, log10, exp, exp2, exp10"),
+            8 => format!("{x} | significand?, logb?, gamma?, lgamma?, frexp?, modf?, cbrt?, nearbyint?"),
+            9 => format!("{x} | ldexp(.; {y})?, scalb(.; {y})?, scalbln(.; {y})?, drem(.; {y})?, atan2(.; {y})"),
+            10 => format!("[{x}, {y}, {x2}] | sort, min, max, unique, add, (map(. * 2) | add), (.[0] < .[1]), (.[0] == .[2])"),
+            11 => format!("[limit({x}; 1, 2, 3)], [first(range(3))], [nth({y}; 1, 2, 3)?]"),
+            12 => format!("[1,2,3,4] | .[{x}:{y}], .[{y}:{x}], (.[{x}]?), (.[{y}]?)"),
+            13 => format!("[{x}] | implode?, ([{y}] | implode?)"),
+            14 => format!("{x} | todate?, gmtime?, (gmtime | mktime)?, localtime?, strftime(\"%Y %j %s\")?"),
+            15 => format!("{x} | . as $n | [$n, $n + 1, $n - 1, $n * $n, ($n / 3), ($n % 7)]"),
+            16 => format!("({x} | tostring | tonumber) == {x}, ({x} | tojson | fromjson | type)"),
+            17 => format!("\"abcdef\" | .[{x}:{y}], .[{y}:], .[:{x}]"),
+            18 => format!("[range(0; 3)] | .[{x}] = 1"),
+            19 => format!("{{}} | .a[{y}] = {x}"),
+            20 => format!("[{x}, {y}] | @csv, @tsv, @sh, @html, join(\",\")"),
+            _ => format!("({x} | isinfinite, isnan, isnormal, isvalid(. + 1)), ({x} == {x2}), ({x} < {y})"),
+        }
+    }
+
     /// Paths, assignment, destructuring and control flow.
     fn paths_family(&mut self) -> String {
         if self.rng.chance(1, 6) {
@@ -726,7 +850,37 @@ impl<'a> ProgGen<'a> {
             31 => format!("try error(null) catch ., try error({lit}) catch ., [.[]? | try error(.) catch .]"),
             32 => format!("try ({g}) catch ., [(error({e}))?], (try error(\"\\(.)\") catch .)"),
             33 => format!("{{({g}): {e}}}, {{a: {g}}}, {{({e}): 1}}?"),
-            34 => format!("{het} | sort, group_by(.), unique, min, max, (map(tojson) | sort)"),
+            34 => {
+                if self.rng.chance(1, 2) {
+                    return format!("{het} | sort, group_by(.), unique, min, max, (map(tojson) | sort)");
+                }
+                let arr = if self.rng.chance(1, 3) {
+                    (*self.rng.pick(&["[range(-10;15)]", "[range(25)] | map(. - 12)", "[range(30)] | map(. * 0.5 - 7)", "[range(-3;20)] | map(. / 3)", "[range(22)] | map(if . % 3 == 0 then nan else . end)", "[range(24)] | map(-.)"])).to_string()
+                } else {
+                    // an unordered array of 21..40 mixed-sign numbers (sorting networks for
+                    // short slices and the merge paths for longer ones behave differently)
+                    let n = self.rng.urange(21, 40);
+                    let mut a = String::from("[");
+                    for i in 0..n {
+                        if i > 0 {
+                            a.push(',');
+                        }
+                        let v = self.rng.below(101) as i64 - 50;
+                        if self.rng.chance(1, 12) {
+                            a.push_str("nan");
+                        } else if self.rng.chance(1, 10) {
+                            a.push_str(&format!("{v}.5"));
+                        } else {
+                            a.push_str(&v.to_string());
+                        }
+                    }
+                    a.push(']');
+                    a
+                };
+                let key = *self.rng.pick(&["sqrt", "log", "log2", "(. / 0)?", "nan", "if . < 0 then nan else . end", "pow(.; 0.5)", "asin", "acos", "[sqrt]", "{a: sqrt}", "(sqrt, 1)", "tostring", "-.", "1 / ."]);
+                let f = *self.rng.pick(&["sort_by", "group_by", "unique_by", "min_by", "max_by"]);
+                format!("{arr} | {f}({key}) | length")
+            }
             35 => format!("{het} | min_by(.), max_by(.), unique_by(type), sort_by(type), index(nan), (.[0] < .[1]), (.[0] == .[0])"),
             36 => format!("{het} | transpose"),
             37 => format!("{lit} | fromstream(tostream), [tostream] | length"),
